@@ -11,7 +11,7 @@ from . import common
 
 META = {
     'design_ref': 'DESIGN.md §5 C02',
-    'technique': "writer/reader agreement decided on automata: dump template extracted from _dump_format (marker-aware rstrip, strip-loss hazard), instantiated with the property's value grammar, split into reader lines and pushed through the reader's line classes, which are read off the paths of _internal_parser with locals substituted away (marked-language capture agreement for key and first line); _skip_useless_lines as a language-level filter per input type and position (bytes/str twins compared as languages); split_gpg_and_payload and the key side of validate_input decided on paths with locals substituted away (payload normalisation per append path, separator choice and accepted field names as languages); injectivity of the writer under constant substitutions on the value (automaton witness v, v.replace(old,new) both in the domain); who-may-call rule: the paragraph splitter only receives lines that went through the comment / blank-line filter; dataflow rule: the encoding that turns text lines into bytes reaches the decoder; piecewise-encoding rule: every str.encode reached per piece (loop, comprehension, generator, helper) uses a decided signature-free codec; the constructor of the signed-document classes interpreted under the calling conventions for text and bytes lines (line codec = decoding codec; every line reaches the armor splitter); class-level containers are not changed through an instance",
+    'technique': "writer/reader agreement decided on automata: dump template extracted from _dump_format (marker-aware rstrip, strip-loss hazard), instantiated with the property's value grammar, split into reader lines and pushed through the reader's line classes, which are read off the paths of _internal_parser with locals substituted away (marked-language capture agreement for key and first line); _skip_useless_lines as a language-level filter per input type and position (bytes/str twins compared as languages); split_gpg_and_payload and the key side of validate_input decided on paths with locals substituted away (payload normalisation per append path, separator choice and accepted field names as languages); injectivity of the writer under constant substitutions on the value (automaton witness v, v.replace(old,new) both in the domain); who-may-call rule: the paragraph splitter only receives lines that went through the comment / blank-line filter; dataflow rule: the encoding that turns text lines into bytes reaches the decoder; piecewise-encoding rule: every str.encode reached per piece (loop, comprehension, generator, helper) uses a decided signature-free codec; the constructor of the signed-document classes interpreted under the calling conventions for text and bytes lines (line codec = decoding codec; every line reaches the armor splitter); class-level containers are not changed through an instance; the paragraph parser interpreted (sa.heap, CPython regex engine on decided lines) on whole texts in three input forms -- fields without value, values on the following lines, comment and blank lines -- against the fields the text shows (the language-level rules are a second opinion behind it when the loop leaves their vocabulary); no regex flag at the position of maxsplit / count",
     'level_text': 'Static decision for all keys/values of the stated grammar: every dumped line is routed by the reader\'s '
                   'regex cascade to the intended branch, the key and the trimmed first line are captured exactly, continuation '
                   'lines are kept verbatim, no line is taken as separator/PGP/comment; both newline conventions.  Structural '
@@ -1035,23 +1035,23 @@ def check(src, rep, tier):
     rep.need('C02.R5', 1)
     rep.need('C02.R6', 2)
     rep.need('C02.R10', 1)
-    n_v, n_e = len(rep.violations), len(rep.errors)
-    rep.guard('C02.R10', r10_parser_by_interpretation, src)
-    parser_holds = len(rep.violations) == n_v and len(rep.errors) == n_e
-    # the language-level readings: the regex cascade of the parser loop against the dump template -- exact for EVERY value of the
-    # grammar when the loop is in the model's vocabulary; where it is not, the interpreted texts decide
-    soft = common.SoftErrors(rep, lambda: parser_holds, 'the interpreted texts (C02.R10), which are read as written')
-    M = soft.guard('C02.R1', lambda r_: Model(src, r_))
-    if M is not None:
-        soft.guard('C02.R1', r1_agreement, src, M)
-        soft.guard('C02.R2', r2_normalisation, src, M)
-        soft.guard('C02.R3', r3_twins, src, M)
-        soft.guard('C02.R4', r4_accumulation, src, M)
-        soft.guard('C02.R5', r5_key_acceptance, src, M)
-        soft.guard('C02.R6', r6_filter_before_split, src, M)
-    elif parser_holds:
-        for r_ in ('C02.R1', 'C02.R2', 'C02.R3', 'C02.R4', 'C02.R5', 'C02.R6'):
-            rep.min_instances[r_] = 0
+
+    def language_level(soft):
+        # the regex cascade of the parser loop against the dump template -- exact for EVERY value of the grammar when the loop is in
+        # the model's vocabulary; where it is not, the interpreted texts decide
+        M = soft.guard('C02.R1', lambda r_: Model(src, r_))
+        if M is not None:
+            soft.guard('C02.R1', r1_agreement, src, M)
+            soft.guard('C02.R2', r2_normalisation, src, M)
+            soft.guard('C02.R3', r3_twins, src, M)
+            soft.guard('C02.R4', r4_accumulation, src, M)
+            soft.guard('C02.R5', r5_key_acceptance, src, M)
+            soft.guard('C02.R6', r6_filter_before_split, src, M)
+        elif soft.softened:
+            for r_ in ('C02.R1', 'C02.R2', 'C02.R3', 'C02.R4', 'C02.R5', 'C02.R6'):
+                rep.min_instances[r_] = 0
+    common.two_readings(rep, 'C02.R10', lambda r_: r10_parser_by_interpretation(r_, src), language_level,
+                        'the interpreted texts (C02.R10), which are read as written', 'the language-level rules C02.R1 to R6, which apply and hold')
     rep.need('C02.R7', 1)
     n_v, n_e = len(rep.violations), len(rep.errors)
     rep.guard('C02.R7', r7b_line_codec_handover, src)
